@@ -25,8 +25,8 @@ use tokio::task::JoinHandle;
 use tokio_util::codec::FramedWrite;
 use uuid::Uuid;
 
-use crate::agentdef::{HAgent, HLifecycle, Shared, CMD, MAP_LANES, VAL_LANES};
-use crate::program::{Ev, Input, Lane, Program, Step};
+use crate::agentdef::{HAgent, HLifecycle, Shared, CMD, DEMAND, DEMAND_MAP, MAP_LANES, VAL_LANES};
+use crate::program::{Ev, Input, Lane, Program, Step, PARAM_ZONE};
 
 pub const NODE: &str = "/node";
 
@@ -60,6 +60,8 @@ pub struct Obs {
     pub fired: u64,
     pub sends_refused: u64,
     pub gates_left: usize,
+    /// Results handed to the `on_done` callbacks of `open_lane` (observation only).
+    pub lanes_opened: Vec<bool>,
 }
 
 fn nz(n: usize) -> NonZeroUsize {
@@ -83,13 +85,17 @@ const STEP_TIMEOUT: Duration = Duration::from_secs(20);
 async fn settle() {
     // Paused clock: virtual time advances only when no task is runnable, so this returns exactly
     // at quiescence.
-    tokio::time::sleep(Duration::from_millis(1)).await;
+    // `SETTLE_MS` = 2: handlers started by the harness run at even milliseconds, generated timer
+    // delays are 0 or odd, so a timer never becomes due at the instant the harness wakes up.
+    tokio::time::sleep(Duration::from_millis(crate::reference::SETTLE_MS)).await;
 }
 
 pub fn lane_name(lane: Lane) -> &'static str {
     match lane {
         Lane::Val(i) => VAL_LANES[i as usize],
         Lane::Map(i) => MAP_LANES[i as usize],
+        Lane::Dem => DEMAND,
+        Lane::DemMap => DEMAND_MAP,
         _ => CMD,
     }
 }
@@ -159,7 +165,7 @@ pub fn run_case(prog: Program, script: &[Step], cfg: &RunCfg, rng: &mut Rng) -> 
         let sh = sh2;
         let mut stuck = vec![];
         let lifecycle = HLifecycle { sh: sh.clone() };
-        let agent = AgentModel::new(HAgent::default, lifecycle.into_lifecycle());
+        let agent = AgentModel::new(HAgent::default, lifecycle.with_timer());
         let (att_tx, att_rx) = mpsc::channel(8);
         let (_http_tx, http_rx) = mpsc::channel(1);
         let (link_tx, mut link_rx) = mpsc::channel(8);
@@ -170,7 +176,11 @@ pub fn run_case(prog: Program, script: &[Step], cfg: &RunCfg, rng: &mut Rng) -> 
             runtime_config: runtime_config(),
         };
         let identity = Uuid::from_u128(0xC06);
-        let descriptor = AgentRouteDescriptor { identity, route: NODE.parse().expect("route uri"), route_params: HashMap::new() };
+        // Route parameters for `get_parameter` / `with_parameters`.
+        let mut route_params = HashMap::new();
+        route_params.insert("id".to_string(), sh.prog.param_id.to_string());
+        route_params.insert("zone".to_string(), PARAM_ZONE.to_string());
+        let descriptor = AgentRouteDescriptor { identity, route: NODE.parse().expect("route uri"), route_params };
         let task = AgentRouteTask::new(&agent, descriptor, AgentRouteChannels::new(att_rx, http_rx, link_tx), stop_rx, config, None);
         // Poll-level jitter on the whole agent (runtime + agent task): only delays polls.
         let handle: JoinHandle<Result<(), AgentExecError>> = tokio::spawn(Jitter::new(task.run_agent(), jitter_rng, cfg.jitter_per_mille));
@@ -257,7 +267,8 @@ pub fn run_case(prog: Program, script: &[Step], cfg: &RunCfg, rng: &mut Rng) -> 
         link_drain.abort();
         let gates_left = sh.gates.lock().len();
         let trace = sh.trace.lock().clone();
-        Obs { trace, result, stuck, fired, sends_refused: remote.refused, gates_left }
+        let lanes_opened = sh.lanes_opened.lock().clone();
+        Obs { trace, result, stuck, fired, sends_refused: remote.refused, gates_left, lanes_opened }
     });
     // Dropping the runtime drops any still-suspended futures; the gates go with `sh`.
     drop(rt);
